@@ -139,6 +139,7 @@ def build(u):
     guarded(u, 'sourceview::Lines::next', lambda: u.get_fn(S, 'next', impl=r"<'a> Iterator for Lines<'a>"), lambda f: u.count('R-trait-inherent'),
             wrap=lambda: ("impl<'a> Lines<'a> {", '}'))
 
+    emit_method(u, S, r'SourceView\b', 'source', 'sourceview::SourceView::source')
     # reference discovery through a view: the slice locator (proved in U18) on the bytes of the text
     from .common import emit_error_enum
     D = 'src/detector.rs'
